@@ -206,6 +206,18 @@ CHECKS["C13"] = {
     "outside": "histories longer than the bound; more than one distinct chain message; guardian sets larger than 2; panics inside libp2p/badger/zap themselves; the notifier (nil in the harness, as in production without a Discord token)",
     "assumptions": CHECKS["C01"]["assumptions"] + ["clock: time.Now()/time.Since( in cleanup.go, broadcast.go, observation.go redirected mechanically to the harness clock (arbitrary non-decreasing instants); Duration.Minutes()/Hours() comparisons replaced by integer comparisons only after the equivalence was proved on the SSA-executed stdlib code"],
 }
+_c14 = ["m.plen=1;n=%d;kind=%d;stored=%d;reqQueueFull=%d" % (n, k, st, q) for n in (1, 3) for k in (0, 1, 2) for st in (0, 1) for q in (0, 1)]
+CHECKS["C14"] = {
+    "runs": [
+        {"pkg": "./pkg/processor", "entry": "VerifC14_Tick", "reach": ["deleted", "kept", "retried"], "opts": _PROC_CLOCK_OPTS,
+         "shards": {"quick": _c14, "thorough": [x.replace("m.plen=1;", "") for x in _c14]}, "timeout": {"quick": 2400, "thorough": 30000}},
+    ],
+    "bounds": {"quick": {"step": "ONE cleanup tick on ONE aggregation entry of any constructible kind {observed on chain, signatures only, injected}; firstObserved, lastRetry (or never retried) and the tick's clock readings arbitrary non-decreasing instants (64-bit monotonic nanoseconds); retryCount any 32-bit value; submitted/settled any; 0, 1 or 3 recorded signatures; guardian set of 1 or 3; a quorum VAA for the message stored or not; re-observation request queue empty or full",
+                         "unwind": 3000},
+               "thorough": {"step": "same, message payload 0..2 bytes"}},
+    "outside": "sequences of ticks are covered inductively only through the per-tick obligations (discard-only-with-cause, retry-only-when-due, per-tick progress); several entries per tick (the loop body does not couple entries except through the shared channels, whose capacity is not exhausted by one entry); the Discord notifier (nil); real timers",
+    "assumptions": CHECKS["C13"]["assumptions"] + ["clock readings carry monotonic readings as real time.Now() values do, so Sub/Since are the stdlib's 64-bit monotonic subtraction"],
+}
 
 # generated harness parts per (module, package): regenerated from /repo on every run for every check that loads the package
 GENERATORS = {("node", "./pkg/vaa"): [_gen_c04], ("node", "./pkg/processor"): [_gen_c07]}
